@@ -275,10 +275,15 @@ theorem tsn_consecutive (s : Tx) (sackNeeded : Bool) (now : Nat) :
 
 /-! ### window -/
 
-/-- the effective window never exceeds the peer's advertised window nor the congestion window -/
+/-- the effective window never exceeds the peer's advertised window nor the congestion window —
+except for the zero-window probe (window closed, nothing in flight), where it is 1 byte of budget,
+i.e. room for exactly one chunk -/
 theorem effective_window_le (cwnd flight rwnd mb : Nat) :
-    effectiveWindow cwnd flight rwnd mb ≤ rwnd ∧ effectiveWindow cwnd flight rwnd mb ≤ cwnd := by
-  simp only [effectiveWindow]; omega
+    (¬ (rwnd = 0 ∧ flight = 0) → effectiveWindow cwnd flight rwnd mb ≤ rwnd ∧ effectiveWindow cwnd flight rwnd mb ≤ cwnd) ∧
+    (rwnd = 0 ∧ flight = 0 → effectiveWindow cwnd flight rwnd mb = 1) := by
+  constructor
+  · intro h; simp only [effectiveWindow, h, if_false]; omega
+  · intro h; simp only [effectiveWindow, h, and_self, if_true]
 
 /-- **window_overshoot_le_one_chunk**: in one `transmit()` the new data taken from the outbound
 queue, *not counting the last chunk taken*, is strictly less than the available window
@@ -289,18 +294,40 @@ theorem window_overshoot_le_one_chunk (q : List OChunk) (available : Nat) :
     (popBudget q available 0).1 ++ (popBudget q available 0).2 = q :=
   ⟨popBudget_overshoot q available 0, fun h => by rw [h]; exact popBudget_zero q 0, popBudget_split q available 0⟩
 
-/-- zero window (or `flight ≥ rwnd`): no new DATA leaves, whatever is queued -/
+/-- zero window (or `flight ≥ rwnd`): no new DATA leaves, whatever is queued — unless this is the
+zero-window probe situation (window closed *and* nothing in flight) -/
 theorem closed_window_sends_nothing_new (s : Tx) (sackNeeded : Bool) (now : Nat)
+    (hnp : ¬ (s.peerRwnd = 0 ∧ s.flight = 0))
     (h : s.peerRwnd ≤ (rexmitPhase s.sentQ s.flight now).2.1) :
     (transmit s sackNeeded now).1.outQ = s.outQ ∧ (transmit s sackNeeded now).1.nextTsn = s.nextTsn := by
   have hz : effectiveWindow s.cwnd s.flight s.peerRwnd s.maxBurst - (rexmitPhase s.sentQ s.flight now).2.1 = 0 := by
-    have := (effective_window_le s.cwnd s.flight s.peerRwnd s.maxBurst).1; omega
+    have := ((effective_window_le s.cwnd s.flight s.peerRwnd s.maxBurst).1 hnp).1; omega
   have h1 := popBudget_zero s.outQ 0
   have h2 := popBudget_split s.outQ 0 0
   rw [h1] at h2
   simp only [transmit, hz, h1, List.length_nil]
   refine ⟨by simpa using h2, ?_⟩
   apply UInt32.toNat_inj.mp; simp
+
+/-- **zero_window_probe** (fix 31af4d4): window closed, nothing in flight, nothing to retransmit,
+data queued ⇒ exactly one chunk leaves (one TSN is taken). Without it a lost window update after
+everything was acknowledged or abandoned left no timer running: the sender never sent again. -/
+theorem zero_window_probe (s : Tx) (now : Nat) (o : OChunk) (rest : List OChunk)
+    (hq : s.outQ = o :: rest) (hr : s.peerRwnd = 0) (hf : s.flight = 0) (hs : s.sentQ = []) :
+    (transmit s false now).1.outQ = rest ∧ (transmit s false now).1.nextTsn = s.nextTsn + 1 := by
+  have he : effectiveWindow s.cwnd s.flight s.peerRwnd s.maxBurst = 1 :=
+    (effective_window_le s.cwnd s.flight s.peerRwnd s.maxBurst).2 ⟨hr, hf⟩
+  have hp : popBudget (o :: rest) 1 0 = ([o], rest) := by
+    have : popBudget rest (1 - paddedSize o.payload.length) 1 = ([], rest) := by
+      have hpos : 1 - paddedSize o.payload.length = 0 := by simp [paddedSize]; omega
+      rw [hpos]
+      cases rest with
+      | nil => rfl
+      | cons x xs => simp [popBudget]
+    simp [popBudget, this]
+  have he' : effectiveWindow s.cwnd 0 s.peerRwnd s.maxBurst = 1 := by rw [← hf]; exact he
+  simp only [transmit, hs, hf, hq, rexmitPhase, he', Nat.sub_zero, hp, List.length_cons, List.length_nil]
+  exact ⟨trivial, rfl⟩
 
 /-! ### retransmission after a covering SACK -/
 
@@ -396,10 +423,11 @@ window in exactly these two situations (recorded findings
 `window:new-data-beyond-advertised-window-plus-one-packet:after-t3-restarted-flight-size` and
 `…:older-sack-with-same-cumulative-tsn`). -/
 theorem window_rule_partial (s : Tx) (sackNeeded : Bool) (now : Nat)
+    (hnp : ¬ (s.peerRwnd = 0 ∧ s.flight = 0))
     (hcount : outstanding s.sentQ ≤ (rexmitPhase s.sentQ s.flight now).2.1)
     (hfull : s.peerRwnd ≤ outstanding s.sentQ) :
     (transmit s sackNeeded now).1.outQ = s.outQ ∧ (transmit s sackNeeded now).1.nextTsn = s.nextTsn :=
-  closed_window_sends_nothing_new s sackNeeded now (Nat.le_trans hfull hcount)
+  closed_window_sends_nothing_new s sackNeeded now hnp (Nat.le_trans hfull hcount)
 
 def exRec (t : UInt32) : SRec := { tsn := t, len := 1200 }
 /-- six full chunks unacknowledged = the whole advertised window; one more chunk queued -/
